@@ -9,8 +9,8 @@ use rspack_sources::Source;
 use serde::{Deserialize, Serialize};
 
 use crate::build::build;
-use crate::edit::all_edits;
-use crate::gen::{idx, normalize, tree, GenCfg};
+use crate::edit::{all_edits, pick_edit};
+use crate::gen::{normalize, tree, GenCfg};
 use crate::observe::{guard, opts};
 use crate::props::c05::hash_of;
 use crate::props::c14::OBS;
@@ -208,12 +208,9 @@ impl Prop for C20 {
           Ok(CaseInfo::nt(true).class(true, "reproducibility batch"))
         }
         Case::Edit { x, edit } => {
-          let mut e = all_edits(x, false);
-          if e.is_empty() {
+          let Some(ed) = pick_edit(all_edits(x, false), *edit) else {
             return Ok(CaseInfo::default());
-          }
-          let k = idx(*edit, e.len());
-          let ed = e.swap_remove(k);
+          };
           pair(x, &ed.result, ed.kind, ed.depth)
         }
         Case::Independent { x, y } => pair(x, y, "independent trees", 0),
